@@ -16,7 +16,7 @@ CLAIMS = {
  "C04": ("Lean theorems: refund bracket r·a/S − r/1e18 − 1 < x ≤ r·a/S, refund ≤ reserve, totality on legal burns, exact success characterisation, monotonicity in burn amount and in reserve, superadditivity (splitting a burn never pays more). "
          "Correspondence: refund family (the arithmetic of withdraw_liquidity) on 128-bit stratified operands.",
          "§6 C04", "Lean 4 proof (floor-division bounds) + differential correspondence"),
- "C05": ("Lean theorems: share bracket on positive supply, exact min formula, empty-pair gate (whitelist, minimums, ⌊√(d0·d1)⌋), success characterisation. "
+ "C05": ("Lean theorems: share bracket on positive supply, exact min formula, empty-pair gate (whitelist, minimums, ⌊√(d0·d1)⌋), success characterisation, monotonicity in the deposits, superadditivity (splitting a provision never mints more). "
          "Correspondence: lp_share family on both branches.", "§6 C05", "Lean 4 proof + differential correspondence"),
  "C06": ("Lean theorems: commission = ⌊c·gross⌋, return+commission+spread = ⌊a·y/x⌋, the one-unit bracket around g(1−γ) (window included), monotonicity in the offer, "
          "result ranges and the exact abort set. Correspondence: compute_swap / compute_swap_mono families.",
